@@ -1024,6 +1024,77 @@ impl IoUring {
     }
 }
 
+/// Verification hook H1: lets a checker drive the ring hand-over code
+/// (`get_next_sqe_slot`, `flush_submission_queue`, `get_next_cqe`) over ring memory
+/// it owns, starting from arbitrary counter values.
+#[cfg(feature = "verif-hooks")]
+#[derive(Debug, Copy, Clone)]
+pub struct VerifRingParts {
+    pub fd: Fd,
+    pub flags: IoUringParamFlags,
+    pub sq_khead: *mut u32,
+    pub sq_ktail: *mut u32,
+    pub sq_kflags: *mut u32,
+    pub sq_kdropped: *mut u32,
+    pub sq_array: *mut u32,
+    pub sq_entries: *mut IoUringSubmissionQueueEntry,
+    pub sq_ring_entries: u32,
+    pub sq_local_head: u32,
+    pub sq_local_tail: u32,
+    pub cq_khead: *mut u32,
+    pub cq_ktail: *mut u32,
+    pub cq_koverflow: *mut u32,
+    pub cq_entries: *mut IoUringCompletionQueueEntry,
+    pub cq_ring_entries: u32,
+}
+
+#[cfg(feature = "verif-hooks")]
+impl IoUring {
+    /// Builds an `IoUring` over caller-owned memory. It's wrapped in `ManuallyDrop` since
+    /// `Drop` would unmap and close things this instance doesn't own.
+    /// # Safety
+    /// All pointers need to be valid, aligned, and live as long as the returned value
+    /// ring entries need to be powers of two
+    #[must_use]
+    pub unsafe fn verif_from_raw_parts(parts: VerifRingParts) -> core::mem::ManuallyDrop<Self> {
+        core::mem::ManuallyDrop::new(Self {
+            fd: parts.fd,
+            flags: parts.flags,
+            submission_queue: UringSubmissionQueue {
+                ring_size: 0,
+                ring_ptr: 0,
+                kernel_head: NonNull::new_unchecked(parts.sq_khead.cast()),
+                kernel_tail: NonNull::new_unchecked(parts.sq_ktail.cast()),
+                kernel_flags: NonNull::new_unchecked(parts.sq_kflags.cast()),
+                kernel_dropped: NonNull::new_unchecked(parts.sq_kdropped.cast()),
+                kernel_array: NonNull::new_unchecked(parts.sq_array.cast()),
+                head: parts.sq_local_head,
+                tail: parts.sq_local_tail,
+                ring_mask: parts.sq_ring_entries - 1,
+                ring_entries: parts.sq_ring_entries,
+                entries: NonNull::new_unchecked(parts.sq_entries),
+            },
+            completion_queue: UringCompletionQueue {
+                ring_size: 0,
+                ring_ptr: 0,
+                kernel_head: NonNull::new_unchecked(parts.cq_khead.cast()),
+                kernel_tail: NonNull::new_unchecked(parts.cq_ktail.cast()),
+                kernel_flags: None,
+                kernel_overflow: NonNull::new_unchecked(parts.cq_koverflow.cast()),
+                ring_mask: parts.cq_ring_entries - 1,
+                ring_entries: parts.cq_ring_entries,
+                entries: NonNull::new_unchecked(parts.cq_entries),
+            },
+        })
+    }
+
+    /// The application-side (local) submission queue head and tail
+    #[must_use]
+    pub fn verif_local_sq(&self) -> (u32, u32) {
+        (self.submission_queue.head, self.submission_queue.tail)
+    }
+}
+
 impl Drop for IoUring {
     #[expect(clippy::let_underscore_untyped)]
     fn drop(&mut self) {
